@@ -1,15 +1,11 @@
 import os
 import vlib
 
-THEOREMS = []
+THEOREMS = ["Dispenso.ThreadId." + t for t in ['C45_unique', 'C45_stable', 'C45_range', 'C45_counter_monotone']]
 
 
 def run(ctx, replay):
-    ctx.cov["rule"] = ("random producer plans (try_push / try_push_batch) and consumer plans (try_pop / try_pop_batch / "
-                       "size, empty, full) for capacities 1..4 (exact and power-of-two buffer sizes) under the deterministic "
-                       "scheduler; element construction/move are atomic events; every trace is replayed through the Lean "
-                       "model; oracle: popped sequence is a prefix of the pushed sequence, occupancy <= capacity, "
-                       "rejections only when full/empty at call start, lifetimes balance; distinct = (K, #pushed, #popped)")
+    ctx.cov["rule"] = ('1..8 (every tenth scenario up to 64) concurrently created threads each calling threadId() 1..4 times under the deterministic scheduler; every trace replayed through the Lean model; oracle: ids stable per thread and pairwise distinct; distinct = (threads, calls)')
     if THEOREMS:
         ctx.prove("DispensoVerif.Props.C45", THEOREMS)
     else:
